@@ -331,7 +331,17 @@ def run(R):
                 tk = [tokenise(rows, c[0]) for c in r['cases']]
                 mreqs.append(core.sx(['optable', tb, [t for t, _ in tk]]))
                 mmeta.append((r, tk))
+        pok_reqs, pok_meta = [], []          # trees of the implementation, judged by the extracted PrecOk.pok
         for (r, tk), o in zip(mmeta, core.run_driver(mreqs, raw=True)):
+            mtrees = []
+            for (text, rxt, entry, pos, full, ix, ip) in r['cases']:
+                if ix.startswith('(done true'):
+                    tr = mconv(core.parse_sx(ix[len('(done true '):-1].rsplit(' ', 1)[0]))
+                    if tr is not None and 'None' not in tr:
+                        mtrees.append((text, tr))
+            if mtrees:
+                pok_reqs.append(core.sx(['pok', [[a, [MSPELL[c] for c in names]] for a, names in multi[r['gid']]], [t for _, t in mtrees]]))
+                pok_meta.append((r, mtrees))
             for (text, rxt, entry, pos, full, ix, ip), (toks, offs), mo in zip(r['cases'], tk, o.split('|')):
                 loop_s, pratt_s = mo.split('\t')
                 if pratt_s != 'none':
@@ -353,6 +363,16 @@ def run(R):
                 else:
                     R.traces += 1
         for r, o in zip(meta, core.run_driver(reqs, raw=True)):
+            ttrees = []
+            for (text, rxt, entry, pos, full, ix, ip) in r['cases']:
+                if ix.startswith('(done true'):
+                    tr = conv(core.parse_sx(ix[len('(done true '):-1].rsplit(' ', 1)[0]))
+                    if tr is not None and 'None' not in tr:
+                        ttrees.append((text, tr))
+            if ttrees:
+                rows_ = info[r['gid']][0]
+                pok_reqs.append(core.sx(['pok', [[a, [SPELL[c] for c in names]] for a, names in rows_], [t for _, t in ttrees]]))
+                pok_meta.append((r, ttrees))
             for (text, rxt, entry, pos, full, ix, ip), mo in zip(r['cases'], o.split('|')):
                 loop_s, pratt_s = mo.split('\t')
                 if ix.startswith('(done true'):
@@ -370,6 +390,12 @@ def run(R):
                     R.traces += 1
                 if got != pratt_s:
                     R.counterexample('token-level', 'tree-or-extent-differs-from-precedence-reference', case, pratt_s, got)
+        for (r, trees), o in zip(pok_meta, core.run_driver(pok_reqs, raw=True)):
+            for (text, tr), verdict in zip(trees, o.split('|')):
+                R.count('precedence-wellformed', (r['desc'], text), nontrivial='inf' in tr or 'pre' in tr or 'post' in tr)
+                if verdict != 'true':
+                    R.counterexample('precedence-wellformed', 'tree-violates-precedence-or-associativity',
+                                     {'grammar': r['desc'], 'text': text}, 'pok = true (C02_precedence_and_associativity)', tr)
     R.assumptions += ['token-level stream: operator spellings are single characters and operands single digits, so that tokenisation is unambiguous',
                       'mixfix rows and spellings that are prefixes of one another are covered by the expression-level model (Model.op_main) and the yield judge only']
     return R.finish(
